@@ -12,7 +12,7 @@
    input  = L [A 2; A fixed; L labels; scenario]     recorded trace of a higher layer, see run_recorded
 *)
 From EN Require Import Lib.Bytes Lib.Sx Frame.Framer Frame.ReadUntil Frame.BufReadUntil Stream.Consumer Stream.Endpoint
-                       Conc.SockReader Conc.BlockRecv Conc.SockEndpoint Gen.ParamsC10.
+                       Conc.SockReader Conc.BlockRecv Conc.SockEndpoint Conc.SockFlow Gen.ParamsC10.
 
 Definition dec_label (x : sx) : option label :=
   match x with
@@ -107,6 +107,13 @@ Definition run_endpoint (buffered latching : bool) (size : nat) (ls : list elabe
     let F := ru_framer [10%N] 64 false id_dec in
     L (map enc_eres (eres (erun (copy_smachine F size) false latching (einit (cinit F)) ls))).
 
+(* mode 5: read flow control (Conc/SockFlow.v) with a small buffer
+   input  = L [A 5; A fixed; L [A max_size; A high; A low]; L labels; ...]
+   output = L [L (L [obs; A paused]); B delivered; B returned]   (room of a read event into the protocol's buffer = max_size - fill) *)
+Definition run_flow (fixed : bool) (p : fparams) (ls : list label) : sx :=
+  let '(f, os) := fexec fixed p (finit p) ls in
+  L [L (map (fun x => L [enc_obs (fst x); of_bool (snd x)]) os); B (delivered (fs f)); B (returned (fs f))].
+
 (* mode 4: the buffer-filling blocking receiver over fixed-size records (bfx_framer, identity codec)
    input  = L [A 4; A size; A sizehint; L calls; L events; ...]   as mode 1; output as mode 1 *)
 Definition enc_bres_n (r : @bres (nres bytes)) : sx :=
@@ -137,6 +144,10 @@ Definition run (i : sx) : sx :=
       do buffered <- as_bool bf;
       do ls <- as_list_of dec_elabel lbls;
       run_endpoint buffered (Z.eqb layer 0) (Z.to_nat size) ls
+  | L (A 5%Z :: fx :: L [A mx; A hi; A lo] :: lbls :: _) =>
+      do fixed <- (match fx with A 2%Z => Some repo_fixed | _ => as_bool fx end);
+      do ls <- as_list_of dec_label lbls;
+      run_flow fixed {| fmax := Z.to_nat mx; fhigh := Z.to_nat hi; flo := Z.to_nat lo |} ls
   | L (A 4%Z :: A size :: A hint :: calls :: evs :: _) =>
       do cs <- as_list_of as_bool calls;
       do es <- as_list_of dec_event evs;
